@@ -23,7 +23,13 @@ def _newer(dst, srcs):
     if not os.path.exists(dst):
         return True
     t = os.path.getmtime(dst)
-    return any(os.path.getmtime(s) > t for s in srcs if os.path.exists(s))
+    srcs = list(srcs)
+    d = dst + ".d"
+    if os.path.exists(d):
+        txt = open(d).read().replace("\\\n", " ")
+        if ":" in txt:
+            srcs += txt.split(":", 1)[1].split()
+    return any((not os.path.exists(s)) or os.path.getmtime(s) > t for s in srcs)
 
 
 def build(name, instr_srcs=(), plain_srcs=(), whole=False, extra_libs=(), variant="B",
@@ -44,15 +50,15 @@ def build(name, instr_srcs=(), plain_srcs=(), whole=False, extra_libs=(), varian
     arch = os.path.join(bdir, "libparsec_b.a")
     for src in instr_srcs:
         o = os.path.join(hdir, os.path.basename(src) + ".i.o")
-        if _newer(o, [src, arch] + hdr_deps):
+        if _newer(o, [src] + hdr_deps):
             flags = [f for f in cf["flags"]]
-            _run([cc] + flags + cf["instr"] + list(extra_instr_flags) + list(defines) + ["-I" + VERIF, "-c", src, "-o", o])
+            _run([cc] + flags + cf["instr"] + list(extra_instr_flags) + list(defines) + ["-I" + VERIF, "-MD", "-MF", o + ".d", "-c", src, "-o", o])
         objs.append(o)
     common = [os.path.join(VERIF, "sim/core/sim.c"), os.path.join(VERIF, "harness/hx.c"), os.path.join(VERIF, "oracle/lin.c")]
     for src in list(plain_srcs) + common:
         o = os.path.join(hdir, os.path.basename(src) + ".o")
-        if _newer(o, [src, arch] + hdr_deps):
-            _run([cc] + base + inc + ["-I" + VERIF, "-c", src, "-o", o])
+        if _newer(o, [src] + hdr_deps):
+            _run([cc] + base + inc + ["-I" + VERIF, "-MD", "-MF", o + ".d", "-c", src, "-o", o])
         objs.append(o)
     exe = os.path.join(hdir, name)
     lib = [os.path.join(bdir, "parsec_all.o")] if whole else [arch]
